@@ -141,7 +141,7 @@ func main() {
 	write("KUBERNETES_PATCH_PATH", d.Patch)
 	write("ADMISSION_RESPONSE_PATH", d.Admission)
 	if strings.HasPrefix(d.Conversion, "@convert") {
-		write("CONVERSION_RESPONSE_PATH", convert(ctxBytes, rel, d.Conversion == "@convert-drop-one"))
+		write("CONVERSION_RESPONSE_PATH", convert(ctxBytes, rel, d.Conversion == "@convert-drop-one", d.Conversion == "@convert-and-failed-message"))
 	} else {
 		write("CONVERSION_RESPONSE_PATH", d.Conversion)
 	}
@@ -158,7 +158,7 @@ func main() {
 
 // convert turns every object of the first context's review request into
 // toVersion and appends "<hook>:<from>-><to>" to the annotation verif/trail.
-func convert(ctx []byte, hook string, dropOne bool) string {
+func convert(ctx []byte, hook string, dropOne bool, alsoFailed bool) string {
 	var contexts []map[string]any
 	if err := json.Unmarshal(ctx, &contexts); err != nil || len(contexts) == 0 {
 		return `{"failedMessage":"vhook: cannot parse context"}`
@@ -200,7 +200,12 @@ func convert(ctx []byte, hook string, dropOne bool) string {
 		an["verif/trail"] = trail + hook + ":" + from + "->" + to
 		out = append(out, m)
 	}
-	b, _ := json.Marshal(map[string]any{"convertedObjects": out})
+	resp := map[string]any{"convertedObjects": out}
+	if alsoFailed {
+		// the hook converted the objects and nevertheless reports a failure
+		resp["failedMessage"] = "converted, but " + hook + " says no"
+	}
+	b, _ := json.Marshal(resp)
 	return string(b)
 }
 
